@@ -570,7 +570,18 @@ func FreshMembership(p *load.Prog, r *oblig.Report, rule string) {
 	}
 	info := pk.TypesInfo
 	n := 0
-	ast.Inspect(fd.Body, func(nd ast.Node) bool {
+	// the merger and the helpers of its package it hands parts of its work to
+	for _, hd := range p.WithHelpers(pk, fd, 2) {
+		n += freshMembershipIn(p, r, rule, info, hd.Body)
+	}
+	if n == 0 {
+		r.Unknown(rule, "membership-list", p.Pos(fd.Pos()), "no membership test (slices.Contains on a collected list, or a lookup in the live relation map) found in the merger")
+	}
+}
+
+func freshMembershipIn(p *load.Prog, r *oblig.Report, rule string, info *types.Info, fnBody *ast.BlockStmt) int {
+	n := 0
+	ast.Inspect(fnBody, func(nd ast.Node) bool {
 		call, ok := nd.(*ast.CallExpr)
 		if !ok {
 			return true
@@ -717,7 +728,7 @@ func FreshMembership(p *load.Prog, r *oblig.Report, rule string) {
 				}
 			}
 		}
-		walk(fd.Body)
+		walk(fnBody)
 		if fresh == nil && other == "" {
 			return true
 		}
@@ -726,7 +737,7 @@ func FreshMembership(p *load.Prog, r *oblig.Report, rule string) {
 		// the fresh declaration must sit inside a loop body that also contains the test
 		inLoop := false
 		if fresh != nil {
-			ast.Inspect(fd.Body, func(m ast.Node) bool {
+			ast.Inspect(fnBody, func(m ast.Node) bool {
 				if rs, ok := m.(*ast.RangeStmt); ok && rs.Body.Pos() <= fresh.Pos() && fresh.End() <= rs.Body.End() && rs.Body.Pos() <= call.Pos() && call.End() <= rs.Body.End() {
 					inLoop = true
 				}
@@ -746,7 +757,7 @@ func FreshMembership(p *load.Prog, r *oblig.Report, rule string) {
 		return true
 	})
 	// membership tested directly in the live map of the type being extended (always up to date)
-	ast.Inspect(fd.Body, func(nd ast.Node) bool {
+	ast.Inspect(fnBody, func(nd ast.Node) bool {
 		as, ok := nd.(*ast.AssignStmt)
 		if !ok || len(as.Lhs) != 2 || len(as.Rhs) != 1 {
 			return true
@@ -769,7 +780,7 @@ func FreshMembership(p *load.Prog, r *oblig.Report, rule string) {
 		}
 		okObj := info.Defs[okID]
 		used := false
-		ast.Inspect(fd.Body, func(m ast.Node) bool {
+		ast.Inspect(fnBody, func(m ast.Node) bool {
 			if is, isIf := m.(*ast.IfStmt); isIf {
 				ast.Inspect(is.Cond, func(q ast.Node) bool {
 					if id, isIdent := q.(*ast.Ident); isIdent && info.Uses[id] == okObj {
@@ -786,9 +797,60 @@ func FreshMembership(p *load.Prog, r *oblig.Report, rule string) {
 		}
 		return true
 	})
-	if n == 0 {
-		r.Unknown(rule, "membership-list", p.Pos(fd.Pos()), "no membership test (slices.Contains on a collected list, or a lookup in the live relation map) found in the merger")
-	}
+	// membership tested in a set that is looked up in another table (a cache kept beside the live object)
+	ast.Inspect(fnBody, func(nd ast.Node) bool {
+		ix, ok := nd.(*ast.IndexExpr)
+		if !ok {
+			return true
+		}
+		id, isID := ast.Unparen(ix.X).(*ast.Ident)
+		tv, okT := info.Types[ix.X]
+		if !isID || !okT {
+			return true
+		}
+		mt, isMap := tv.Type.Underlying().(*types.Map)
+		if !isMap {
+			return true
+		}
+		switch et := mt.Elem().Underlying().(type) {
+		case *types.Struct:
+			if et.NumFields() != 0 {
+				return true
+			}
+		case *types.Basic:
+			if et.Kind() != types.Bool {
+				return true
+			}
+		default:
+			return true
+		}
+		obj := info.Uses[id]
+		if obj == nil {
+			return true
+		}
+		// where does the set come from?
+		var src ast.Expr
+		ast.Inspect(fnBody, func(m ast.Node) bool {
+			if as, isAs := m.(*ast.AssignStmt); isAs {
+				for i, l := range as.Lhs {
+					if lid, isL := l.(*ast.Ident); isL && info.Defs[lid] == obj && len(as.Rhs) == len(as.Lhs) {
+						src = as.Rhs[i]
+					}
+				}
+			}
+			return true
+		})
+		if src == nil {
+			return true
+		}
+		if _, fromTable := ast.Unparen(src).(*ast.IndexExpr); !fromTable {
+			return true
+		}
+		n++
+		r.Unknown(rule, "membership-set:"+id.Name, p.Pos(ix.Pos()), "a conflict is tested against the set "+id.Name+", which is taken from the table "+types.ExprString(src)+" kept beside the live object: it is not established that every way of adding to the live object (wholesale assignment of an extension's relations included) also updates that set — a clash can then be accepted silently")
+		return false
+	})
+	return n
 }
 
 // ModuleLookupShape (C07 clause 7): GetModuleForObjectTypeRelation returns an error exactly when the
